@@ -62,7 +62,7 @@ func failCmd(how string, status int) string {
 	return fmt.Sprintf("exit %d", status)
 }
 
-func runTaskCase(a args, tcase taskCase, idx int) {
+func runTaskCase(a args, tcase taskCase, idx int, shared *runner.TaskRunner) {
 	trace := filepath.Join(a.Work, fmt.Sprintf("ttrace.%d", idx))
 	os.Remove(trace)
 	defer os.Remove(trace)
@@ -177,6 +177,9 @@ func runTaskCase(a args, tcase taskCase, idx int) {
 		t = st.Task // the stage runs (and keeps) its own copy of the task; results live there
 		err = schedErr
 		lockedFinish(sch.Finish)
+	} else if shared != nil {
+		// several tasks run at the same time on one runner (as parallel stages do)
+		err = shared.Run(t)
 	} else {
 		r := newQuietRunner()
 		r.Stdout = &so
@@ -229,7 +232,7 @@ func runTaskCase(a args, tcase taskCase, idx int) {
 			trToks = append(trToks, x)
 		}
 	}
-	if strings.Join(soToks, " ") != strings.Join(trToks, " ") {
+	if shared == nil && strings.Join(soToks, " ") != strings.Join(trToks, " ") {
 		out.Viol("C06", "stdout-order-differs-from-trace", fmt.Sprintf("stdout tokens %v vs trace %v", soToks, trToks), cas)
 	}
 	if t.Skipped != wantSkipped {
@@ -380,10 +383,54 @@ func modeTask(a args) {
 			mine = append(mine, i)
 		}
 	}
-	h.Par(len(mine), 8, func(k int) { runTaskCase(a, cases[mine[k]], mine[k]) })
+	h.Par(len(mine), 8, func(k int) { runTaskCase(a, cases[mine[k]], mine[k], nil) })
+}
+
+// modeTaskPar: the same grammar, but 12 tasks at a time run concurrently on ONE TaskRunner —
+// every task must still run exactly its own commands in its own order.
+func modeTaskPar(a args) {
+	rnd := h.NewRand(a.Seed, "taskpar")
+	rounds := a.n(150, 2000)
+	if a.Race {
+		rounds = a.n(60, 400)
+	}
+	for round := 0; round < rounds; round++ {
+		if !a.mine(round) {
+			for i := 0; i < 12*4; i++ {
+				rnd.U64()
+			}
+			continue
+		}
+		r := newQuietRunner()
+		var wg sync.WaitGroup
+		gate := make(chan struct{})
+		for k := 0; k < 12; k++ {
+			n := rnd.Range(1, 3)
+			tcx := taskCase{Commands: n, Variations: rnd.Intn(4), Allow: rnd.Bool(), How: "exit"}
+			for i := 0; i < n; i++ {
+				st := 0
+				if rnd.Chance(20) {
+					st = rnd.Range(1, 255)
+				}
+				tcx.Fail = append(tcx.Fail, st)
+			}
+			rnd.U64()
+			wg.Add(1)
+			go func(tcx taskCase, idx int) {
+				defer wg.Done()
+				<-gate
+				runTaskCase(a, tcx, idx, r)
+			}(tcx, 1000000+round*12+k)
+		}
+		close(gate)
+		wg.Wait()
+		lockedFinish(r.Finish)
+		out.Count("parallel_rounds", 1)
+	}
 }
 
 func init() {
+	modes["taskpar"] = modeTaskPar
 	modes["task"] = modeTask
 	_ = runner.DefaultContext
 }
